@@ -40,6 +40,15 @@ def parseOptList (s : String) : Option (List (Option Rat)) :=
 def inDomS (S : Shape Rat) (d : Nat) (u : Rat) : Bool :=
   decide (fnOf (S.kv d) (S.deg d) ≤ u) && decide (u ≤ fnOf (S.kv d) (S.size d))
 
+/-- the guard of `operations.insert_knot` / `remove_knot` on the two lists, exactly as the code has it: `param[i]` is
+    read for every parametric direction (`IndexError` when `param` is too short; a longer list is accepted, the
+    surplus is never read); with `check_num` the `num` list must have exactly one entry per direction; without it
+    `num[i]` is read only where `param[i]` is not `None` (short-circuit `and`), so only those entries must exist -/
+def callListsOk (S : Shape Rat) (params : List (Option Rat)) (nums : List Nat) (check : Bool) : Bool :=
+  decide (S.pdim ≤ params.length) &&
+    (if check then nums.length == S.pdim
+     else (List.range S.pdim).all (fun d => (params.getD d none).isNone || decide (d < nums.length)))
+
 /-- fold a list of `(params, nums, check)` insertion requests; `strict` = operations-level (an
     exception aborts), otherwise method-level (a rejected request leaves the object unchanged) -/
 def insSeq (strict : Bool) : Shape Rat → List String → Option String
@@ -47,7 +56,7 @@ def insSeq (strict : Bool) : Shape Rat → List String → Option String
   | S, ps :: ns :: chk :: rest => do
       let params ← parseOptList ps
       let nums ← parseNats ns
-      if params.length != S.pdim || nums.length != S.pdim then return "ERR"
+      if !callListsOk S params nums (chk == "1") then return "ERR"
       if (List.range S.pdim).any (fun d => match params.getD d none with | some u => !inDomS S d u | none => false) then return "ERR"
       let res := insertKnot S params nums tolMult (chk == "1")
       if res.2 then insSeq strict res.1 rest
@@ -59,13 +68,13 @@ def applyReq (S : Shape Rat) : List String → Option ((Shape Rat × Bool) × Li
   | "I" :: ps :: ns :: chk :: rest => do
       let params ← parseOptList ps
       let nums ← parseNats ns
-      if params.length != S.pdim || nums.length != S.pdim then none
+      if !callListsOk S params nums (chk == "1") then none
       if (List.range S.pdim).any (fun d => match params.getD d none with | some u => !inDomS S d u | none => false) then none
       return (insertKnot S params nums tolMult (chk == "1"), rest)
   | "R" :: ps :: ns :: chk :: rest => do
       let params ← parseOptList ps
       let nums ← parseNats ns
-      if params.length != S.pdim || nums.length != S.pdim then none
+      if !callListsOk S params nums (chk == "1") then none
       if (List.range S.pdim).any (fun d => match params.getD d none with | some u => !inDomS S d u | none => false) then none
       return (removeKnot S params nums tolMult (tolRemove * tolRemove) (chk == "1"), rest)
   | "F" :: ds :: rest => do
@@ -87,6 +96,11 @@ def runScript (strict : Bool) : Nat → Shape Rat → List String → Option Str
           if ok then runScript strict fuel S' rest
           else if strict then some "ERR" else runScript strict fuel S' rest
 
+/-- `helpers.knot_insertion` divides by `U[i+k+1] - U[L+i]` (`knot_insertion_alpha`), `L = k - p + j`, for
+    `j = 1..num`, `i = 0..p-j-s`: `true` when one of these denominators is zero (the code raises `ZeroDivisionError`) -/
+def a51DivByZero (p : Nat) (U : Nat → Rat) (r s k : Nat) : Bool :=
+  (List.range' 1 r).any fun j => (List.range (p - j - s + 1)).any fun i => U (i + k + 1) == U (k - p + j + i)
+
 def handleShape (toks : List String) : Option String :=
   match toks with
   | "ops" :: rest => do
@@ -106,20 +120,21 @@ def handleShape (toks : List String) : Option String :=
       if !shapeOk S then return "ERR"
       insSeq false S rest
   -- A5.1 as coded (literal transcription `knotInsertionA51`): helpers.knot_insertion(p, U, P, u, num=r, s=s, span=k),
-  -- point branch.  Guard: no negative index (p <= k, r + s <= p), no read past the net (k < len P) and a
-  -- non-empty span k (then no alpha denominator is zero); outside it the answer is ERR
+  -- point branch.  Guard: no negative index (p <= k, r + s <= p), no read past the net (k < len P) and no zero alpha
+  -- denominator among those the loops compute (`a51DivByZero`; for a non-empty span k of a sorted knot vector there
+  -- is none); outside it the answer is ERR
   | ["insa51", p, us, ps, u, r, s, k] => do
       let p ← p.toNat?; let U ← parseList us; let P ← parsePts ps; let u ← parseRat u
       let r ← r.toNat?; let s ← s.toNat?; let k ← k.toNat?
       if p = 0 || U.length != P.length + p + 1 || !isSortedB U || r + s > p || k < p || k ≥ P.length
-          || !(decide (fn U k < fn U (k + 1))) then return "ERR"
+          || a51DivByZero p (fn U) r s k then return "ERR"
       return showPts (knotInsertionA51 p (fn U) P u r s k)
   -- the same call against the index-by-index model `knotInsertion`
   | ["inspt", p, us, ps, u, r, s, k] => do
       let p ← p.toNat?; let U ← parseList us; let P ← parsePts ps; let u ← parseRat u
       let r ← r.toNat?; let s ← s.toNat?; let k ← k.toNat?
       if p = 0 || U.length != P.length + p + 1 || !isSortedB U || r + s > p || k < p || k ≥ P.length
-          || !(decide (fn U k < fn U (k + 1))) then return "ERR"
+          || a51DivByZero p (fn U) r s k then return "ERR"
       return showPts (knotInsertion p (fn U) P u r s k)
   | "xform" :: rest => do
       let (S, rest) ← parseShape rest
@@ -170,8 +185,9 @@ def handleShape (toks : List String) : Option String :=
       | [dir, u] =>
           let dir ← dir.toNat?; let u ← parseRat u
           if !shapeOk S || dir ≥ S.pdim then return "ERR"
-          -- `splitDirE`: `splitDir` plus the `ValueError` of the code for a parameter of multiplicity > p
-          match splitDirE S dir u tolMult with
+          -- `splitDirD`: `splitDir` plus the exceptions of the code for a parameter of multiplicity > p (`splitDirE`)
+          -- and for a parameter outside the domain [U_p, U_n] of the split direction
+          match splitDirD S dir u tolMult with
           | some (a, b) => return s!"{showShape a} # {showShape b}"
           | none => return "ERR"
       | _ => none
